@@ -355,7 +355,143 @@ def _run_directive(case):
             for k in sorted(intr.keys()):
                 srcs = sorted(p for p, v in args.items() if v is not None and _match(intr[k], v))
                 out.append([cn, k, srcs])
+            # "action info points at the statement": the statement is issued from this file
+            ai = intr.action_info
+            fn = getattr(ai, 'file', None) or ''
+            out.append([cn, '@action_info', ['statement'] if fn.endswith(os.path.join('harness', 'c20', 'prop.py'))
+                        else ['elsewhere:' + os.path.basename(fn)]])
     return [func, out]
+
+
+# ------------------------------------------------------------------ include-nesting programs
+KINDS = ['renderer', 'defperm', 'perm', 'session']
+
+
+def gen_program(rng):
+    n_nodes = rng.choice([1, 2, 2, 3, 3, 4])
+    parent = [None] + [rng.randrange(0, i) for i in range(1, n_nodes)]
+    n_st = rng.choice([2, 3, 4, 5, 6])
+    stmts = []
+    for k in range(n_st):
+        kind = rng.choice(['renderer', 'renderer', 'defperm', 'perm', 'session'])
+        stmts.append({'kind': kind, 'n': rng.randrange(2), 'node': rng.randrange(n_nodes)})
+    nodes = [[] for _ in range(n_nodes)]
+    for k, st in enumerate(stmts):
+        nodes[st['node']].append(['stmt', k])
+    for ch in range(1, n_nodes):
+        nodes[parent[ch]].append(['inc', ch])
+    for items in nodes:
+        rng.shuffle(items)
+    return {'kind': 'program', 'introspection': rng.random() < 0.75, 'stmts': stmts, 'nodes': nodes, 'parent': parent}
+
+
+class _Tag:
+    def __init__(self, k):
+        self.k = k
+
+    def __call__(self, *a, **kw):
+        return None
+
+
+def _spec_of(child):
+    return '%s:inc_%d' % (__name__, child)
+
+
+def _run_program(case):
+    from pyramid.config import Configurator
+    from pyramid.exceptions import ConfigurationConflictError
+    c = Configurator(introspection=case['introspection'], autocommit=False)
+    stmts = case['stmts']
+
+    def run_node(cfg, node):
+        for item in case['nodes'][node]:
+            if item[0] == 'inc':
+                child = item[1]
+
+                def inc(cfg2, child=child):
+                    run_node(cfg2, child)
+                inc.__name__ = 'inc_%d' % child
+                inc.__qualname__ = inc.__name__
+                inc.__module__ = __name__
+                cfg.include(inc)
+            else:
+                k = item[1]
+                st = stmts[k]
+                info = ('stmt', k, '', '')
+                if st['kind'] == 'renderer':
+                    cfg.add_renderer('.x%d' % st['n'], factory=_Tag(k), _info=info)
+                elif st['kind'] == 'defperm':
+                    cfg.set_default_permission('dperm%d' % k, _info=info)
+                elif st['kind'] == 'perm':
+                    cfg.add_permission('perm%d' % k)
+                else:
+                    cfg.set_session_factory(_Tag(k), _info=info)
+
+    run_node(c, 0)
+    outcome = 0
+    try:
+        c.commit()
+    except ConfigurationConflictError:
+        outcome = 1
+    ents = []
+    intro = c.registry.introspector if hasattr(c.registry, 'introspector') else c.introspector
+    for cn, items in intro.categorized():
+        for e in items:
+            i = e['introspectable']
+            k = None
+            if cn == 'renderer factories' and isinstance(i.get('factory'), _Tag):
+                k, disc = i['factory'].k, i['name']
+            elif cn == 'session factory' and isinstance(i.get('factory'), _Tag):
+                k, disc = i['factory'].k, ''
+            elif cn in ('default permission', 'permissions') and isinstance(i.get('value'), str) \
+                    and i['value'].lstrip('d').startswith('perm'):
+                k = int(i['value'].lstrip('d')[4:])
+                disc = '' if cn == 'default permission' else i['value']
+            if k is None:
+                continue
+            ai = i.action_info
+            ok = 1 if stmts[k]['kind'] == 'perm' else int(getattr(ai, 'line', None) == k and getattr(ai, 'file', None) == 'stmt')
+            ents.append([cn, disc, str(k), ok])
+    return [outcome, sorted(ents)]
+
+
+def _program_wire(case):
+    acts, intrs = [], []
+    par = case['parent']
+
+    def path(node):
+        p = []
+        while node != 0:
+            p.append(_spec_of(node))
+            node = par[node]
+        return list(reversed(p))
+
+    # declaration order = the order in which the statements are issued
+    order = []
+
+    def walk(node):
+        for item in case['nodes'][node]:
+            if item[0] == 'inc':
+                walk(item[1])
+            else:
+                order.append(item[1])
+    walk(0)
+    for k in order:
+        st = case['stmts'][k]
+        kind = st['kind']
+        disc = {'renderer': [10 + st['n']], 'defperm': [1], 'session': [2], 'perm': []}[kind]
+        o = {'renderer': -20, 'defperm': -20, 'session': 0, 'perm': 0}[kind]
+        acts.append([k, disc, path(st['node']), o])
+        if kind == 'renderer':
+            il = [[['renderer factories', '.x%d' % st['n'], str(k), 2 * k], []]]
+        elif kind == 'defperm':
+            il = [[['default permission', '', str(k), 2 * k], []], [['permissions', 'dperm%d' % k, str(k), 2 * k + 1], []]]
+        elif kind == 'perm':
+            il = [[['permissions', 'perm%d' % k, str(k), 2 * k], []]]
+        else:
+            il = [[['session factory', '', str(k), 2 * k], []]]
+        intrs.append([k, il])
+    return [2, case['introspection'], acts, intrs]
 
 
 # ------------------------------------------------------------------ engine API
@@ -365,8 +501,8 @@ def generate(rng, tier, n):
     for name in sorted(scenarios()):
         for variant in (0, 1):
             yield {'kind': 'directive', 'name': name, 'variant': variant}
-    for _ in range(n):
-        yield gen_ops(rng)
+    for j in range(n):
+        yield gen_program(rng) if j % 3 == 0 else gen_ops(rng)
 
 
 def valid(case):
@@ -375,6 +511,28 @@ def valid(case):
             return case == {'kind': 'tables'}
         if case['kind'] == 'directive':
             return case['name'] in scenarios() and case['variant'] in (0, 1)
+        if case['kind'] == 'program':
+            n = len(case['nodes'])
+            if n < 1 or len(case['parent']) != n or case['parent'][0] is not None:
+                return False
+            if any(not (isinstance(p, int) and 0 <= p < i) for i, p in enumerate(case['parent']) if i > 0):
+                return False
+            seen_st, seen_inc = [], []
+            for i, items in enumerate(case['nodes']):
+                for it in items:
+                    if it[0] == 'stmt':
+                        if case['stmts'][it[1]]['node'] != i:
+                            return False
+                        seen_st.append(it[1])
+                    elif it[0] == 'inc':
+                        if case['parent'][it[1]] != i:
+                            return False
+                        seen_inc.append(it[1])
+                    else:
+                        return False
+            return sorted(seen_st) == list(range(len(case['stmts']))) and sorted(seen_inc) == list(range(1, n)) \
+                and all(st['kind'] in KINDS and st['n'] in (0, 1) for st in case['stmts']) \
+                and isinstance(case['introspection'], bool)
         for o in case['ops']:
             if o[0] not in OPCODE:
                 return False
@@ -397,6 +555,8 @@ def valid(case):
 def to_wire(case):
     if case['kind'] == 'ops':
         return [0, _ops_wire(case['ops'])]
+    if case['kind'] == 'program':
+        return _program_wire(case)
     return [1]
 
 
@@ -417,6 +577,12 @@ def from_wire(case, raw):
         return {'model': raw, 'spec': None}
     if case['kind'] == 'tables':
         return {'model': ['documented-but-not-recorded', sorted(raw[2])], 'spec': ['documented-but-not-recorded', []]}
+    if case['kind'] == 'program':
+        if raw == [['bad']] or len(raw) != 2 or raw[1] in (['K'], ['V']):
+            return {'model': ['MODEL', raw], 'spec': None}
+        ents = sorted([e[0], e[1], e[2], 1] for e in raw[1])
+        out = 1 if raw[0] == 1 else 0 if raw[0] == 0 else raw[0]
+        return {'model': [out, ents], 'spec': [out, ents]}
     return {'model': None, 'spec': raw}
 
 
@@ -429,6 +595,8 @@ def run_impl(case):
         setup('quick')
     if case['kind'] == 'ops':
         return _run_ops(case['ops'])
+    if case['kind'] == 'program':
+        return _run_program(case)
     if case['kind'] == 'tables':
         import harness.common.build as B
         doc = X.documented(os.path.dirname(B.SRC))
@@ -446,7 +614,7 @@ def spec_holds(case, obs, spec):
     that argument, and every key named like a directive argument carries that argument (the property)."""
     if case['kind'] == 'ops':
         return _ops_spec(case, obs)
-    if case['kind'] == 'tables':
+    if case['kind'] in ('tables', 'program'):
         return obs == spec
     if obs and obs[0] == 'HARNESS-EXC':
         return False
@@ -458,6 +626,10 @@ def spec_holds(case, obs, spec):
     _, build = scenarios()[case['name']]
     _, args = build(case['variant'])
     for cn, k, srcs in rows:
+        if k == '@action_info':
+            if srcs != ['statement']:
+                return False
+            continue
         site = [s for s in sites if s['category'] == cn]
         forms = [kk['form'] for s in site for kk in s['keys'] if kk['key'] == k]
         for f in forms:
@@ -482,6 +654,8 @@ def classify(case, obs, spec):
 def nontrivial(case, obs):
     if case['kind'] == 'tables':
         return True
+    if case['kind'] == 'program':
+        return len(case['nodes']) > 1 and len(case['stmts']) >= 2
     if case['kind'] == 'directive':
         return isinstance(obs, list) and len(obs) == 2 and sum(1 for r in obs[1] if r[2]) >= 2
     kinds_ = {o[0] for o in case['ops']}
@@ -491,6 +665,15 @@ def nontrivial(case, obs):
 def kinds(case, obs):
     if case['kind'] == 'tables':
         return ['tables']
+    if case['kind'] == 'program':
+        out = ['program', 'program:introspection-%s' % ('on' if case['introspection'] else 'off'),
+               'program:nodes-%d' % len(case['nodes'])]
+        if isinstance(obs, list) and len(obs) == 2 and isinstance(obs[1], list):
+            out.append('program:conflict' if obs[0] == 1 else 'program:done')
+            executed = {e[2] for e in obs[1]}
+            if obs[0] == 0 and case['introspection'] and len(executed) < len(case['stmts']):
+                out.append('program:some-statement-overridden')
+        return out
     if case['kind'] == 'directive':
         return ['directive', 'directive:' + case['name']]
     out = ['ops', 'ops-len-%d' % len(case['ops'])]
